@@ -9,7 +9,7 @@ HOLD_LABELS = ['call', 'wf.enter', 'wf.exit', 'add.enq', 'loop.wake', 'loop.pass
                'rel.enter', 'rel.bcast', 'jclose.marked', 'wuf.locked', 'wuf.wait', 'wuf.woken', 'pause.load', 'resume.check',
                'resume.stored', 'stop.waited', 'stop.chans', 'stop.nodes', 'stopall.removed', 'restart.waited', 'restart.closed',
                'restart.newchans', 'restart.reset', 'start.enter', 'start.node', 'node.init', 'tune.stored', 'tune.popped',
-               'purge.deq', 'job.sp.load', 'job.mc.load', 'jclose.checked', 'disp.cas.load', 'serve.wfdone', 'lifecycle.locked', 'tune.checked', 'reap.expired', 'add.pre', 'wgc.cas', 'resp.stored', 'resp.close', 'reap.tick', 'reap.snap', 'reap.removed', 'reap.stopped', 'ctx.fired', 'sub.notify']
+               'purge.deq', 'job.sp.load', 'job.mc.load', 'jclose.checked', 'disp.cas.load', 'serve.wfdone', 'lifecycle.locked', 'tune.checked', 'reap.expired', 'add.pre', 'wgc.cas', 'resp.stored', 'resp.close', 'mgr.register', 'ad.sub', 'reap.tick', 'reap.snap', 'reap.removed', 'reap.stopped', 'ctx.fired', 'sub.notify']
 
 
 def sched(rng, procs=('disp', 'pg', 'c', 'w', 'ctl', 'x')):
@@ -376,12 +376,17 @@ def fam_tune(rng, pid):
     b = Builder(rng, 'tune', pid)
     conc = rng.choice([2, 3, 3, 4])
     cfg = base_cfg(rng, conc=conc)
-    cfg['ratio'] = rng.choice([0, 0, 1, 50])
+    cfg['ratio'] = rng.choice([100, 100, 50, 100])
     pr = PRIOS if cfg['queues'][0] == 'prio' else None
-    ops = [b.add(0, pr) for _ in range(2 * conc + rng.choice([1, 2, 3]))] + [{'op': 'WUF'}, {'op': 'NumIdle'}]
+    ops = [b.add(0, pr) for _ in range(2 * conc + rng.choice([1, 2, 3]))]
+    last = ops[-1]['job']
+    ops += [{'op': 'Wait', 'job': last}, {'op': 'NumIdle'}]
     ops += [b.add(0, pr) for _ in range(rng.choice([1, 2, 3]))] + [{'op': 'WUF'}]
     b.client('c1', ops)
-    b.client('ctl', [{'op': 'WUF'}, {'op': 'TunePool', 'n': rng.choice([1, 1, 2])}, {'op': 'NumIdle'}] + ([{'op': 'TunePool', 'n': conc}] if rng.random() < 0.4 else []) + [{'op': 'WUF'}])
+    # the controller shrinks the pool as soon as the first burst is through, while c1 submits again
+    # ... then widens it again and submits a second burst (a pool node damaged by the shrink is used again here)
+    b.client('ctl', [{'op': 'Wait', 'job': last}, {'op': 'TunePool', 'n': rng.choice([1, 1, 2])}, {'op': 'NumIdle'}, {'op': 'TunePool', 'n': conc}]
+             + [b.add(0, pr) for _ in range(conc + rng.choice([1, 2]))] + [{'op': 'WUF'}, {'op': 'NumProcessing'}])
     if rng.random() < 0.4:
         b.client('c2', [b.add(0, pr) for _ in range(rng.choice([1, 2]))])
     return b.prog(cfg)
@@ -393,6 +398,23 @@ def fam_bind2(rng, pid):
     cfg = {'wk': rng.choice(WKS), 'conc': rng.choice([1, 1, 2]), 'queues': [], 'nobind': True, 'errs_reader': rng.random() < 0.5}
     b.client('b1', [{'op': 'Bind', 'kind': 'fifo'}] + [b.add(0) for _ in range(rng.choice([2, 3, 4]))] + [{'op': 'WUF'}])
     b.client('b2', [{'op': 'Bind', 'kind': rng.choice(['fifo', 'prio'])}] + [b.add(1) for _ in range(rng.choice([2, 3, 4]))] + [{'op': 'WUF'}])
+    return b.prog(cfg)
+
+
+def fam_distbind(rng, pid):
+    """a distributed queue is bound (as a client call, so under the gate) to an adapter that already holds entries,
+    while another producer process writes to the adapter"""
+    b = Builder(rng, 'distbind', pid)
+    kind = rng.choice(['dfifo', 'dprio'])
+    pr = PRIOS if kind == 'dprio' else None
+    cfg = {'wk': 'plain', 'conc': rng.choice([1, 2]), 'queues': [], 'nobind': True, 'errs_reader': rng.random() < 0.5,
+           'preload': [{'job': b.job(0), 'prio': rng.choice(PRIOS) if pr else 0} for _ in range(rng.choice([0, 1, 2, 3]))]}
+    ops = [{'op': 'Bind', 'kind': kind}]
+    if rng.random() < 0.6:
+        ops += [b.add(0, pr) for _ in range(rng.choice([1, 2]))]
+    b.client('c1', ops)
+    if rng.random() < 0.7:
+        b.client('c2', [{'op': 'RawAd', 'job': b.job(0), 'prio': rng.choice(PRIOS) if pr else 0} for _ in range(rng.choice([1, 2]))])
     return b.prog(cfg)
 
 
@@ -448,7 +470,7 @@ def life_exhaustive(maxlen, seed, prefix):
     return out
 
 
-FAMILIES = {'life': fam_life, 'bind2': fam_bind2, 'tune': fam_tune, 'adapter': fam_adapter, 'dist': fam_dist, 'basic': fam_basic, 'barrier': fam_barrier, 'ctl': fam_ctl, 'cancel': fam_cancel, 'batch': fam_batch,
+FAMILIES = {'life': fam_life, 'distbind': fam_distbind, 'bind2': fam_bind2, 'tune': fam_tune, 'adapter': fam_adapter, 'dist': fam_dist, 'basic': fam_basic, 'barrier': fam_barrier, 'ctl': fam_ctl, 'cancel': fam_cancel, 'batch': fam_batch,
             'handle': fam_handle, 'pool': fam_pool, 'multi': fam_multi}
 
 
